@@ -659,12 +659,37 @@ def spool_vanish_part(R, quick):
             R.violation("a vanished write-buffer file surfaced as an unrelated exception", case, {"exception": res})
 
 
+def _collapse(calls):
+    """Model trace (one call per underlying write) -> groups: [(kind, path, first_index, count)]
+    with consecutive writes on one path merged (what FaultFS numbers as one event)."""
+    out = []
+    for idx, ev in enumerate(calls):
+        kind = str(ev[0])
+        path = ev[1].decode()
+        if kind == "write" and out and out[-1][0] == "write" and out[-1][1] == path:
+            out[-1][3] += 1
+        else:
+            out.append([kind, path, idx, 1])
+    return out
+
+
+def _events_match(groups, events):
+    return [[g[0], g[1]] for g in groups] == [[e[0], e[1]] for e in events]
+
+
 def sharded_close_part(R, quick):
-    """ShardedFileAccessor.close() with every primitive call of the close failing in turn, followed by a
-    SECOND close() without any fault (an explicit retry, the per-scale close of compute_dyadic_scales, or
-    the atexit hook the accessor registers itself).  Oracle: the failing close is an I/O / data-access
-    error; the second close never returns normally unless every stored chunk is then readable."""
+    """ShardedFileAccessor.close() with every primitive call of the close failing in turn - every
+    underlying write of every shard file separately -, followed by a SECOND close() without any fault
+    (an explicit retry, the per-scale close of compute_dyadic_scales, or the atexit hook the accessor
+    registers itself).
+    Correspondence: the model's close program (StFaults.close_prog through D_C12 "sh_close", the payload
+    blocks taken from a recorded fault-free close): primitive-call traces of both closes, their outcomes,
+    the files after each.
+    Oracle: the failing close is an I/O / data-access error; the second close never returns normally
+    unless every stored chunk is then readable."""
     from neuroglancer_scripts.sharded_file_accessor import ShardedFileAccessor
+    R.notes.append("close model: the data of a minishard is one write (always with the in-memory buffers; with the "
+                   "on-disk buffers up to 4096 bytes per minishard - the generated chunks are 9 bytes)")
     root = os.path.join(R.tmp, "shclose")
     coords = [(x, x + 64, y, y + 64, 0, 64) for x in (0, 64) for y in (0, 64)]
 
@@ -686,40 +711,111 @@ def sharded_close_part(R, quick):
             except Exception as e:  # noqa: BLE001
                 return classify_exception(e)
 
+    def model_out(o):
+        return {"ok": ["ok"], "IOErr": ["IOErr"], "AttrErr": ["Crash", "AttributeError"]}[str(o)]
+
+    reqs, pend = [], []
     for strategy in ("in memory", "on disk"):
         for triple in ([(0, 1, 1)] if quick else [(0, 1, 1), (0, 0, 0), (1, 1, 1), (0, 2, 0)]):
             w, info, ds = build(strategy, triple)
-            with faultfs.FaultFS(root) as f0:
-                close_outcome(w)
+            tree0 = h14.tagged_tree(root)
+            with faultfs.FaultFS(root, record_writes=True) as f0:
+                o0 = close_outcome(w)
             atexit.unregister(w.close)
             events = list(f0.events)
+            case0 = {"accessor": "sharded-file", "op": "close", "strategy": strategy, "triple": list(triple)}
+            R.case(case0)
+            if o0 != ["ok"]:
+                R.violation("ShardedFileAccessor.close() fails although no primitive call fails", case0,
+                            {"impl": o0, "calls": [list(e[:2]) for e in events]})
+            # the payload blocks of every shard, in the order the shards are written
+            shards, ok_payload = [], True
+            for ev in events:
+                if ev[0] != "open":
+                    continue
+                ws = [d for (p, d) in f0.writes if p == ev[1]]
+                n = (len(ws) - 2) // 2
+                if len(ws) < 4 or len(ws) != 2 * n + 2:
+                    ok_payload = False
+                    break
+                shards.append([b(os.path.dirname(ev[1])), b(ev[1]), ws[0], ws[1:1 + n], ws[1 + n:1 + 2 * n], ws[-1],
+                               True, 0])
+            if not ok_payload and o0 == ["ok"]:
+                # 9-byte chunks: every minishard is one block also with the on-disk buffers (4096-byte reads)
+                R.disagree("write sequence of close() vs model (zero header, one data block and one index block "
+                           "per minishard, shard index)", case0,
+                           [[os.path.basename(p), len(d)] for (p, d) in f0.writes], "2n+2 writes per shard file")
+            subs = {}
+            for k, ev in enumerate(events):
+                subs[k] = len([1 for (p, d) in f0.writes if p == ev[1]]) if ev[0] == "write" else 1
             for k in range(len(events)):
-                for en in (["EIO", "ENOSPC"] if quick else ERRNOS):
-                    w, info, ds = build(strategy, triple)
-                    with faultfs.FaultFS(root, fault=(k, en)) as ffs:
-                        o1 = close_outcome(w)
-                    o2 = close_outcome(w)
-                    atexit.unregister(w.close)
-                    case = {"accessor": "sharded-file", "op": "close, then close again", "strategy": strategy,
-                            "triple": list(triple), "fault": [k, events[k][0], os.path.basename(events[k][1]), en]}
-                    R.case(case, nontrivial=ffs.fired)
-                    R.count(f"sh-close:{events[k][0]}:first={o1[0]}:second={o2[0]}")
-                    if ffs.fired and o1 not in (["IOErr"], ["AccessErr"]):
-                        R.violation("failing primitive during ShardedFileAccessor.close() not reported as an I/O error",
-                                    case, {"impl": o1})
-                    if o2 == ["ok"]:
-                        with open(os.path.join(ds, "info"), "w") as fh:
-                            json.dump(info, fh)
-                        rd = ShardedFileAccessor(ds)
-                        bad = []
-                        for c in coords:
-                            got = h14.run_impl(lambda: rd.fetch_chunk("1mm", c))
-                            if got != ["ok", bytes([c[0] + c[2] + 1]) * 9]:
-                                bad.append([list(c), h12._short(got)])
-                        atexit.unregister(rd.close)
-                        if bad:
-                            R.violation("close() returned normally after an earlier close() had failed, but stored "
-                                        "chunks are not readable (silently dropped)", case, {"unreadable": bad[:3]})
+                for sub in range(subs[k]):
+                    for en in (["EIO", "ENOSPC"] if quick else ERRNOS):
+                        w, info, ds = build(strategy, triple)
+                        with faultfs.FaultFS(root, fault=(k, en, sub)) as ffs:
+                            o1 = close_outcome(w)
+                        snap1 = h12.snapshot(root)
+                        with faultfs.FaultFS(root) as f2:
+                            o2 = close_outcome(w)
+                        snap2 = h12.snapshot(root)
+                        atexit.unregister(w.close)
+                        case = {"accessor": "sharded-file", "op": "close, then close again", "strategy": strategy,
+                                "triple": list(triple),
+                                "fault": [k, events[k][0], os.path.basename(events[k][1]), en, "underlying write", sub]}
+                        R.case(case, nontrivial=ffs.fired)
+                        R.count(f"sh-close:{events[k][0]}{'+' + str(sub) if sub else ''}:first={o1[0]}:"
+                                f"second={o2[0] if o2[0] != 'Crash' else o2[1]}")
+                        if ok_payload:
+                            reqs.append(("sh_close", [tree0, shards, ("group", k, sub), Atom(en)]))
+                            pend.append((case, events, o1, snap1, list(f2.events), o2, snap2))
+                        if ffs.fired and o1 not in (["IOErr"], ["AccessErr"]):
+                            R.violation("failing primitive during ShardedFileAccessor.close() not reported as an I/O "
+                                        "error", case, {"impl": o1})
+                        if o2 == ["ok"]:
+                            with open(os.path.join(ds, "info"), "w") as fh:
+                                json.dump(info, fh)
+                            rd = ShardedFileAccessor(ds)
+                            bad = []
+                            for c in coords:
+                                got = h14.run_impl(lambda: rd.fetch_chunk("1mm", c))
+                                if got != ["ok", bytes([c[0] + c[2] + 1]) * 9]:
+                                    bad.append([list(c), h12._short(got)])
+                            atexit.unregister(rd.close)
+                            if bad:
+                                R.violation("close() returned normally after an earlier close() had failed, but stored "
+                                            "chunks are not readable (silently dropped)", case, {"unreadable": bad[:3]})
+    # ---- model: the fault index is the index of the call in the model's trace (one call per write)
+    cache = {}
+    final = []
+    for op, (tree0, shards, (_, k, sub), en) in reqs:
+        key = repr([(x[1], len(x[3])) for x in shards])
+        if key not in cache:
+            cache[key] = _collapse(R.model.call("sh_close", [tree0, shards, -1, Atom("EIO")])[0])
+        g = cache[key]
+        kmodel = g[k][2] + sub if k < len(g) else 10 ** 6
+        final.append(("sh_close", [tree0, shards, kmodel, en]))
+    rep = R.model.batch(final)
+    for (case, events, o1, snap1, events2, o2, snap2), (op, args), m in zip(pend, final, rep):
+        g1 = _collapse(m[0])
+        if not _events_match(g1, events):
+            R.disagree("primitive-call trace of ShardedFileAccessor.close() vs model", case,
+                       [list(e[:2]) for e in events], [x[:2] for x in g1])
+            continue
+        R.traces += 1
+        if model_out(m[1]) != o1:
+            R.disagree("outcome of the failing close() vs model", case, o1, model_out(m[1]))
+        d = h12.compare_tree(m[3], snap1, root)
+        if d:
+            R.disagree("files after the failing close() vs model", case, [str(x)[:160] for x in d[:3]], "model")
+        g2 = _collapse(m[4])
+        if not _events_match(g2, events2):
+            R.disagree("primitive-call trace of the second close() vs model", case,
+                       [list(e[:2]) for e in events2], [x[:2] for x in g2])
+        if model_out(m[5]) != o2:
+            R.disagree("outcome of the second close() vs model", case, o2, model_out(m[5]))
+        d = h12.compare_tree(m[7], snap2, root)
+        if d:
+            R.disagree("files after the second close() vs model", case, [str(x)[:160] for x in d[:3]], "model")
     shutil.rmtree(root, ignore_errors=True)
 
 
